@@ -41,6 +41,24 @@ class Arr:
         return Arr({off + i: x for i, x in enumerate(b)})
 
 
+class FnArr(Arr):
+    """array given by a python function of the index (native twin of an axiomatized array function)"""
+
+    def __init__(self, fn):
+        self.fn = fn
+        self.e, self.d = {}, 0
+
+    def get(self, i):
+        return self.fn(i)
+
+    def store(self, i, v):
+        base = self
+        return FnArr(lambda j, _i=i, _v=v: _v if j == _i else base.get(j))
+
+
+AXIOM_PY = {}       # name -> python function(evaluated args...) -> Arr
+
+
 def val_of(py):
     """python value -> Val tuple"""
     if py is None:
@@ -211,6 +229,8 @@ class Evaluator:
             return self.ev(a[0]) & self.ev(a[1])
         if op in self.funcs:
             return self.funcs[op](self, *[self.ev(y) for y in a])
+        if op in AXIOM_PY:
+            return AXIOM_PY[op](*[self.ev(y) for y in a])
         spec = prelude.REGISTRY.get(op)
         if spec is not None and spec.py is not None:
             args = [self.ev(y) for y in a]
@@ -219,6 +239,8 @@ class Evaluator:
         raise Unsupported('operator %s' % op)
 
     def equal(self, l, r, sort):
+        if isinstance(l, FnArr) or isinstance(r, FnArr):
+            return all(l.get(k) == r.get(k) for k in range(-2, self.RANGE))
         if isinstance(l, Arr) and isinstance(r, Arr):
             keys = set(l.e) | set(r.e)
             return l.d == r.d and all(l.get(k) == r.get(k) for k in keys)
